@@ -419,10 +419,19 @@ func TestVerifC10(t *testing.T) {
 			if nTimeouts >= 5 {
 				expect = "error"
 			}
-		case "write":
+		case "write", "writepending", "writeall":
 			c.WriteErrKind, c.WriteErrAfter = parts[1], fl.at
+			c.WriteErrAll = parts[0] == "writeall"
 			// the failing write is the answer to a solicitation at fl.at
 			c.Steps = append(c.Steps, advStep{At: fl.at, Kind: "rs", Src: "fe80::a:2"})
+			if parts[0] != "write" {
+				// other transmissions are still pending in the scheduler when the
+				// first one fails: a second solicited answer and a multicast RA held
+				// back by the 3 s spacing
+				c.Steps = append(c.Steps, advStep{At: fl.at - 100*vMs, Kind: "rs", Src: "::"}, advStep{At: fl.at, Kind: "rs", Src: "fe80::a:4"},
+					advStep{At: fl.at + vMs, Kind: "rs", Src: "fe80::a:5"})
+				c.Steps = append(c.Steps, advStep{At: fl.at - 3500*vMs, Kind: "rs", Src: "::"})
+			}
 			expect = map[string]string{"nobufs": "redial", "syscall": "redial", "perm": "error", "other": "error"}[parts[1]]
 		case "link":
 			c.Steps = append(c.Steps, advStep{At: fl.at, Kind: "link"})
@@ -532,6 +541,23 @@ func TestVerifC10(t *testing.T) {
 				return
 			}
 		}
+		// a transmit failure stops the generation: no further transmission is
+		// attempted on it (transmissions already inside the injected latency excepted)
+		if strings.HasPrefix(parts[0], "write") && lat == 0 {
+			firstFail := -1
+			for i, e := range ev {
+				if e.Kind == "write_end" && e.Err != "" && e.Gen == 1 {
+					firstFail = i
+					break
+				}
+			}
+			for i, e := range ev {
+				if firstFail >= 0 && i > firstFail && e.Gen == 1 && e.Kind == "write_begin" && e.T > ev[firstFail].T {
+					r.Violation(id, "transmit-after-failure", fmt.Sprintf("generation 1 transmitted again at %v after its transmit failure at %v", e.T, ev[firstFail].T), det())
+					return
+				}
+			}
+		}
 		// back-off between retried time-outs: 0, 50, 100, 150, 200 ms
 		if parts[0] == "timeouts" && vTiming {
 			var ts []time.Duration
@@ -556,7 +582,7 @@ func TestVerifC10(t *testing.T) {
 	}
 
 	kinds := []string{"read:syscall", "read:perm", "read:other", "timeouts:1", "timeouts:2", "timeouts:3", "timeouts:4", "timeouts:5", "timeouts:6",
-		"write:nobufs", "write:perm", "write:other", "link", "watchclose"}
+		"write:nobufs", "write:perm", "write:other", "writepending:nobufs", "writepending:other", "writeall:nobufs", "writeall:perm", "link", "watchclose"}
 	i := 0
 	reps := r.Pick(3, 40)
 	for _, k := range kinds {
